@@ -11,6 +11,7 @@ import (
 	"regexp"
 	"strconv"
 	"strings"
+	"sync"
 
 	"github.com/a-h/templ"
 )
@@ -129,28 +130,65 @@ type implOut struct {
 	Err    string
 }
 
-// newContext sets a context up the way a page gets it: through the CSS middleware, or plain InitializeContext.
-func newContext(c Cfg) (context.Context, string) {
-	var ctx context.Context
-	sheet := ""
-	if c.MW {
-		var classes []templ.CSSClass
-		for _, k := range c.Classes {
-			classes = append(classes, k.val())
+// instances holds the middleware instances of one execution: contexts with the same Inst share one.
+type instances map[int]*templ.CSSMiddleware
+
+func classVals(c Cfg) []templ.CSSClass {
+	var classes []templ.CSSClass
+	for _, k := range c.Classes {
+		classes = append(classes, k.val())
+	}
+	return classes
+}
+
+// serve makes one page request: through the CSS middleware (a shared instance when c.Inst > 0) or with a plain
+// InitializeContext; page is called with the context the page's handler sees.
+func (in instances) serve(c Cfg, page func(ctx context.Context)) (sheet string) {
+	with := func(ctx context.Context) {
+		if c.Nonce != "" {
+			ctx = templ.WithNonce(ctx, c.Nonce)
 		}
-		next := http.HandlerFunc(func(w http.ResponseWriter, r *http.Request) { ctx = r.Context() })
-		mw := templ.NewCSSMiddleware(next, classes...)
-		mw.ServeHTTP(httptest.NewRecorder(), httptest.NewRequest("GET", "/", nil))
-		rec := httptest.NewRecorder()
-		mw.ServeHTTP(rec, httptest.NewRequest("GET", "/styles/templ.css", nil))
-		sheet = rec.Body.String()
-	} else {
-		ctx = templ.InitializeContext(context.Background())
+		page(ctx)
 	}
-	if c.Nonce != "" {
-		ctx = templ.WithNonce(ctx, c.Nonce)
+	if !c.MW {
+		with(templ.InitializeContext(context.Background()))
+		return ""
 	}
-	return ctx, sheet
+	// the handler is chosen per request through the request context so that one instance can serve every page
+	var mw *templ.CSSMiddleware
+	if c.Inst > 0 {
+		mw = in[c.Inst]
+	}
+	if mw == nil {
+		next := http.HandlerFunc(func(w http.ResponseWriter, r *http.Request) {
+			r.Context().Value(pageKey{}).(func(context.Context))(r.Context())
+		})
+		m := templ.NewCSSMiddleware(next, classVals(c)...)
+		mw = &m
+	}
+	req := httptest.NewRequest("GET", "/", nil)
+	req = req.WithContext(context.WithValue(req.Context(), pageKey{}, with))
+	mw.ServeHTTP(httptest.NewRecorder(), req)
+	rec := httptest.NewRecorder()
+	mw.ServeHTTP(rec, httptest.NewRequest("GET", "/styles/templ.css", nil))
+	return rec.Body.String()
+}
+
+type pageKey struct{}
+
+// prepare creates the shared instances up front (so that concurrent requests find them).
+func prepare(h Hist) instances {
+	in := instances{}
+	for _, c := range h.Cfgs {
+		if c.MW && c.Inst > 0 && in[c.Inst] == nil {
+			next := http.HandlerFunc(func(w http.ResponseWriter, r *http.Request) {
+				r.Context().Value(pageKey{}).(func(context.Context))(r.Context())
+			})
+			m := templ.NewCSSMiddleware(next, classVals(c)...)
+			in[c.Inst] = &m
+		}
+	}
+	return in
 }
 
 // runImpl executes the history on the real runtime.
@@ -160,24 +198,69 @@ func runImpl(h Hist) (out implOut) {
 		bufs[i] = new(bytes.Buffer)
 	}
 	out.Sheets = make([]string, len(h.Cfgs))
+	var mu sync.Mutex
+	setErr := func(e string) {
+		mu.Lock()
+		if out.Err == "" {
+			out.Err = e
+		}
+		mu.Unlock()
+	}
 	defer func() {
 		if r := recover(); r != nil {
-			out.Err = fmt.Sprint("panic: ", r)
+			setErr(fmt.Sprint("panic: ", r))
 		}
 		for _, b := range bufs {
 			out.Docs = append(out.Docs, b.String())
 		}
 	}()
+	in := prepare(h)
+	if h.Pages != "" {
+		// one page request per context; the page renders the context's uses inside the handler
+		page := func(k int) {
+			w := &world{handles: map[int]*templ.OnceHandle{}}
+			out.Sheets[k] = in.serve(h.Cfgs[k], func(ctx context.Context) {
+				defer func() {
+					if r := recover(); r != nil {
+						setErr(fmt.Sprint("panic: ", r))
+					}
+				}()
+				for _, co := range h.Ops {
+					if co.Ctx != k {
+						continue
+					}
+					var err error
+					if ctx, err = w.exec(ctx, bufs[k], co.Op); err != nil {
+						setErr(err.Error())
+						return
+					}
+				}
+			})
+		}
+		if h.Pages == "par" {
+			var wg sync.WaitGroup
+			for k := range h.Cfgs {
+				wg.Add(1)
+				go func(k int) { defer wg.Done(); page(k) }(k)
+			}
+			wg.Wait()
+		} else {
+			for k := range h.Cfgs {
+				page(k)
+			}
+		}
+		return out
+	}
 	w := &world{handles: map[int]*templ.OnceHandle{}}
 	ctxs := make([]context.Context, len(h.Cfgs))
 	for i, c := range h.Cfgs {
-		ctxs[i], out.Sheets[i] = newContext(c)
+		out.Sheets[i] = in.serve(c, func(ctx context.Context) { ctxs[i] = ctx })
 	}
 	for _, co := range h.Ops {
 		var err error
 		ctxs[co.Ctx], err = w.exec(ctxs[co.Ctx], bufs[co.Ctx], co.Op)
 		if err != nil {
-			out.Err = err.Error()
+			setErr(err.Error())
 			break
 		}
 	}
